@@ -1,7 +1,7 @@
 """C07 - physical states: the symmetry clause (N Hermitian, M symmetric) of the Gaussian simulator."""
 import ast
 
-from ..dataflow import rd_of
+from ..dataflow import rd_of, resolve_local, return_values, expand_locals
 from ..loader import dotted, walk_no_nested
 from . import common_gauss as G
 from . import c06
@@ -20,22 +20,33 @@ def weights_normalised(ctx, rule="C07.weights-normalised"):
         rd = rd_of(f.node)
         for nd in rd.cfg.nodes:
             st = nd.ast
-            if nd.kind != "stmt" or not isinstance(st, ast.Return) or not isinstance(st.value, ast.Tuple) or not st.value.elts:
+            if nd.kind != "stmt" or not isinstance(st, ast.Return) or st.value is None:
                 continue
-            w = st.value.elts[0]
+            rv = resolve_local(f.node, st.value, at=nd.id)
+            if not isinstance(rv, ast.Tuple) or not rv.elts:
+                continue
+            w = rv.elts[0]
             if not isinstance(w, ast.Name):
                 continue
             ds = [d for d in rd.reaching(w.id, nd.id) if not d.weak]
             if not ds:
                 continue
             n += 1
+
+            def is_total(e):
+                e = expand_locals(f.node, e)
+                if isinstance(e, ast.Call) and dotted(e.func) in ("np.sum", "sum", "np.add.reduce") and e.args and \
+                        dotted(e.args[0]) == w.id:
+                    return True
+                return isinstance(e, ast.Call) and isinstance(e.func, ast.Attribute) and e.func.attr == "sum" and \
+                    dotted(e.func.value) == w.id
+
             def is_norm(d):
                 s_ = d.stmt
-                if isinstance(s_, ast.AugAssign) and isinstance(s_.op, ast.Div) and isinstance(s_.value, ast.Call) and \
-                        dotted(s_.value.func) == "np.sum" and dotted(s_.value.args[0]) == w.id:
+                if isinstance(s_, ast.AugAssign) and isinstance(s_.op, ast.Div) and is_total(s_.value):
                     return True
                 if isinstance(s_, ast.Assign) and isinstance(s_.value, ast.BinOp) and isinstance(s_.value.op, ast.Div) and \
-                        isinstance(s_.value.right, ast.Call) and dotted(s_.value.right.func) == "np.sum":
+                        dotted(s_.value.left) == w.id and is_total(s_.value.right):
                     return True
                 # a literal single weight [1]
                 if isinstance(s_, ast.Assign) and isinstance(s_.value, ast.Call) and dotted(s_.value.func) == "np.array" and \
@@ -46,7 +57,7 @@ def weights_normalised(ctx, rule="C07.weights-normalised"):
             ok = not bad
             ctx.ob(rule, f.site, ok, "" if ok else
                    f"`{ast.unparse(bad[0].stmt)[:50]}` modifies the weights after they were normalised: the returned "
-                   "weights do not sum to one", role=f"last-def:{w.id}", line=st.lineno)
+                   "weights do not sum to one", role="last-def", line=st.lineno)
     ctx.require(n >= 4, f"only {n} weight-returning prepare_* returns found")
     ctx.floor(rule, 4)
 
@@ -57,10 +68,9 @@ def kraus_complete(ctx, rule="C07.kraus-complete"):
                 "inside the cutoff.")
     f = ctx.tree.func("backends/fockbackend/ops.py", "lossChannel")
     tp = f.pos_params[1]
-    rets = [n for n in walk_no_nested(f.node) if isinstance(n, ast.Return) and n.value is not None]
+    rets = return_values(f.node)
     ctx.require(len(rets) >= 1, "lossChannel returns nothing")
-    for i, r in enumerate(rets):
-        v = r.value
+    for i, (r, v) in enumerate(rets):
         ok = isinstance(v, ast.ListComp) and len(v.generators) == 1 and not v.generators[0].ifs and \
             isinstance(v.generators[0].iter, ast.Call) and dotted(v.generators[0].iter.func) == "range" and \
             len(v.generators[0].iter.args) == 1 and dotted(v.generators[0].iter.args[0]) == tp
